@@ -1096,7 +1096,6 @@ func TestCheck(t *testing.T) {
 
 	deadline := run.Deadline(85*time.Second, 13*time.Minute)
 	expired := func() bool { return time.Now().After(deadline) }
-	unloads0, misses0 := trie.CacheUnloads(), trie.CacheMisses()
 
 	if pf := os.Getenv("VERIF_C10_PROF"); pf != "" { // development aid
 		if fh, err := os.Create(pf); err == nil {
@@ -1128,8 +1127,8 @@ func TestCheck(t *testing.T) {
 	}
 
 	pprof.StopCPUProfile()
-	run.Set("cache_unloads_driven", trie.CacheUnloads()-unloads0)
-	run.Set("node_reloads_driven", trie.CacheMisses()-misses0)
+	// (trie.CacheUnloads/CacheMisses are metrics counters and read 0 unless metrics are enabled, so they are
+	// not reported; that unloading and reloading are driven is shown by the hash-clears-dirty mutant.)
 	run.Finish()
 }
 
